@@ -1567,6 +1567,12 @@ class BaseSpaceImpl(*_base_space_impl_base):
             # Clear the values calculated by reading the references
             # through attribute access to this space
             self.model.clear_attr_referrers(ref)
+        for name, ref in self.model.global_refs.items():
+            if name not in self.own_refs and name not in self.cells:
+                # A global reference that no member of this space hides
+                # may have been read through attribute access to this
+                # space as well
+                self.model.clear_attr_referrers(ref)
         super().on_delete()
 
 
